@@ -100,7 +100,7 @@ def file_digest(name):
 
 def oracle(ctx, deep):
     ctx.searched = ("each preset over its complete cell: the documented values, each exactly once per index vector, nothing else, entropy log2(count); "
-                    "classes, defaults, budget and list digests read from the built package against the documented literals and testdata")
+                    "on tapes with raw words an unbiased draw rejects, the value the remaining tape scripts; classes, the numeric class constants, defaults (also of a second constructor call after the caller changed every field of the first result), budget and list digests read from the built package against the documented literals and testdata")
     # presets: tally the complete cells
     tally = {}
     for meta, a, line in getattr(ctx, "cell_results", []):
